@@ -378,6 +378,24 @@ class Lib(object):
             engine.dict_put(st, d, h=z3.Store(h, k, False))
             yield st, res
             return
+        if name == "setdefault" and 1 <= len(args) <= 2:
+            # d.setdefault(k, v): the entry under k if there is one, else v is stored under k and is the result -
+            # composed from the models of d[k] and d[k] = v (so every kind of table behaves as with those)
+            k = to_val(args[0])
+            ln = engine.rel_line(node)
+            hit = st.fork().assume(z3.Select(h, k)).label("L%d:setdefault hit" % ln)
+            if engine.feasible(hit):
+                for r in self.getitem(engine, hit, d, args[0], node):
+                    yield r
+            miss = st.fork().assume(z3.Not(z3.Select(h, k))).label("L%d:setdefault miss" % ln)
+            if engine.feasible(miss):
+                for s1, o in self.setitem(engine, miss, d, args[0], args[1] if len(args) > 1 else None, node):
+                    if isinstance(o, Raised):
+                        yield s1, o
+                        continue
+                    for r in self.getitem(engine, s1, d, args[0], node):
+                        yield r
+            return
         if name in ("add", "discard") and len(args) == 1:
             # a set of objects modelled as a dict without values: membership only
             engine.dict_put(st, d, h=z3.Store(h, to_val(args[0]), name == "add"))
@@ -568,6 +586,32 @@ class Lib(object):
             self.used.add("str.%s: an uninterpreted pure function text -> text" % name)
             fmt = Val.VStr(seq_lit("." + name))
             yield st, SStr(ops.TEXT_FMT(fmt, Val.VTuple(to_vl([o] + list(args)))))
+            return
+        if isinstance(o, SBytes) and name in ("rstrip", "lstrip", "strip") and len(args) == 1 and isinstance(args[0], bytes) \
+                and len(args[0]) == 1 and not kwargs:
+            # bytes.rstrip(b"c") / lstrip / strip with ONE byte to strip, exactly: the result is the receiver without its longest
+            # run of that byte at the end (beginning / both)
+            self.used.add("bytes.%s(one byte): the receiver without its maximal run of that byte at that end (exact)" % name)
+            c = z3.IntVal(args[0][0])
+            ln = engine.rel_line(node)
+            cur = o.z
+            for side in (("l",) if name == "lstrip" else ("r",) if name == "rstrip" else ("l", "r")):
+                k = fresh("%s.%s@L%d" % (name, side, ln), Int)
+                n = z3.Length(cur)
+                i = z3.Const("q!strip", Int)
+                st.assume(z3.And(k >= 0, k <= n))
+                if side == "r":
+                    # kept: cur[:k]; everything from k on is the byte; the byte before k is not
+                    st.assume(z3.ForAll([i], z3.Implies(z3.And(i >= k, i < n), cur[i] == c)))
+                    st.assume(z3.Or(k == 0, cur[k - 1] != c))
+                    st.assume(z3.Implies(k < n, cur[n - 1] == c))
+                    cur = z3.SubSeq(cur, 0, k)
+                else:
+                    st.assume(z3.ForAll([i], z3.Implies(z3.And(i >= 0, i < k), cur[i] == c)))
+                    st.assume(z3.Or(k == n, cur[k] != c))
+                    st.assume(z3.Implies(k > 0, cur[0] == c))
+                    cur = z3.SubSeq(cur, k, n - k)
+            yield st, SBytes(cur)
             return
         if isinstance(o, SStr) and name == "split" and len(args) == 1 and isinstance(args[0], (str, SStr)) and not kwargs:
             # text.split(sep): a non-empty list of texts (modelled as a tuple), an uninterpreted function of text and separator
